@@ -1,19 +1,70 @@
 (** C14 — the router matches exactly the paths its route table declares.
-    Statements only; proofs live in Router/MatchProofs.v. *)
+    Statements only; proofs live in Router/MatchProofs.v.  Model: Router/Match.v (what the
+    matcher does), reference: Router/Flat.v (what the server's route table says, and the
+    decidable known-finding classes F-C14-a..d = k_boundary, k_slash_static, k_optional,
+    k_dslash, the same predicates as [classify] in gen/c14.py). *)
 From Coq Require Import List NArith.
-From LV Require Import Base.Bytes Router.Match Router.MatchProofs.
+From LV Require Import Base.Bytes Router.Match Router.Flat Router.MatchProofs.
 Import ListNotations.
 Open Scope N_scope.
 
-(** for a match of any segment value (nested tuples, optionals, wildcard), the matched
-    prefix and the remainder partition the path *)
-Theorem C14_matched_remaining_partition :
-  forall s path m r ps, seg_test s path = TSome m r ps -> m ++ r = path.
-Proof. exact seg_test_partition. Qed.
-Print Assumptions C14_matched_remaining_partition.
+(** ---- "a path is matched iff it matches one of the generated flat routes" ----
+    plain statement: refuted by the faithful model, once per known class *)
+Theorem C14_match_iff_flat_refuted :
+  exists base rs p, wf_tree rs = true /\ wf_routes rs = true /\ starts_with_slash p = true
+                    /\ matches base rs p <> flat_any base rs p.
+Proof. exact match_iff_flat_refuted. Qed.
+Print Assumptions C14_match_iff_flat_refuted.
 
-(** among sibling definitions the first one (in declaration order) that matches wins: every
-    earlier sibling did not match, and the result is that sibling's own result *)
+(* F-C14-a: /foox matches (StaticSegment "foo", StaticSegment "x") *)
+Theorem C14_match_iff_flat_refuted_boundary :
+  exists rs p, wf_tree rs = true /\ wf_routes rs = true /\ starts_with_slash p = true
+               /\ matches None rs p = true /\ flat_any None rs p = false.
+Proof. exact match_iff_flat_refuted_boundary. Qed.
+Print Assumptions C14_match_iff_flat_refuted_boundary.
+
+(* F-C14-b: /about matches "/" { "", "about" } whose table entry is //about *)
+Theorem C14_match_iff_flat_refuted_slash_static :
+  exists rs p, wf_tree rs = true /\ wf_routes rs = true /\ starts_with_slash p = true
+               /\ matches None rs p = true /\ flat_any None rs p = false.
+Proof. exact match_iff_flat_refuted_slash_static. Qed.
+Print Assumptions C14_match_iff_flat_refuted_slash_static.
+
+(* F-C14-c: /a/b is in the table of (:x?, "a", :y?) but is not matched *)
+Theorem C14_match_iff_flat_refuted_optional :
+  exists rs p, wf_tree rs = true /\ wf_routes rs = true /\ starts_with_slash p = true
+               /\ matches None rs p = false /\ flat_any None rs p = true.
+Proof. exact match_iff_flat_refuted_optional. Qed.
+Print Assumptions C14_match_iff_flat_refuted_optional.
+
+(* F-C14-d: // is "/" plus the tolerated trailing slash, StaticSegment "" does not match it *)
+Theorem C14_match_iff_flat_refuted_dslash :
+  exists rs p, wf_tree rs = true /\ wf_routes rs = true /\ starts_with_slash p = true
+               /\ matches None rs p = false /\ flat_any None rs p = true.
+Proof. exact match_iff_flat_refuted_dslash. Qed.
+Print Assumptions C14_match_iff_flat_refuted_dslash.
+
+(* F-C14-a also makes the matcher partial: /xéa on (StaticSegment "x", ParamSegment "p") panics *)
+Theorem C14_match_route_total_refuted :
+  exists rs p, wf_tree rs = true /\ wf_routes rs = true /\ starts_with_slash p = true
+               /\ match_route None rs p = MPanic.
+Proof. exact match_route_total_refuted. Qed.
+Print Assumptions C14_match_route_total_refuted.
+
+(** outside the four known classes, for every route table (any nesting of tuples and of
+    routes, any number of siblings) and every request path: the router matches exactly
+    when the table does, and it does not panic.
+    PARTIAL in one respect: stated for RouteDefs without a base path ([None]); the model
+    covers bases and the correspondence run exercises them, the proof does not. *)
+Theorem C14_match_iff_flat_except_known_partial :
+  forall rs p,
+    wf_tree rs = true -> wf_routes rs = true -> starts_with_slash p = true ->
+    known_class None rs p = false ->
+    matches None rs p = flat_any None rs p /\ match_route None rs p <> MPanic.
+Proof. exact match_iff_flat_nobase. Qed.
+Print Assumptions C14_match_iff_flat_except_known_partial.
+
+(** ---- first matching definition in declaration order wins ---- *)
 Theorem C14_first_match_wins :
   forall rs id p ch ps rem,
     match_siblings rs id p = NYes ch ps rem ->
@@ -24,3 +75,43 @@ Theorem C14_first_match_wins :
       /\ match_nested c (id + forest_size pre) p = NYes ch ps rem.
 Proof. exact first_match_wins. Qed.
 Print Assumptions C14_first_match_wins.
+
+(** ---- matched prefix and remainder partition the path ----
+    for one segment value (any nesting of tuples, optionals, wildcard): always *)
+Theorem C14_matched_remaining_partition :
+  forall s path m r ps, seg_test s path = TSome m r ps -> m ++ r = path.
+Proof. exact seg_test_partition. Qed.
+Print Assumptions C14_matched_remaining_partition.
+
+(** for a nested match (the matched texts of the chain of routes, then the remainder):
+    refuted when an optional parent falls back to its children (F-C14-c) ... *)
+Theorem C14_nested_partition_refuted :
+  exists rs p ch ps rem, match_siblings rs 0 p = NYes ch ps rem /\ chain_text ch ++ rem <> p.
+Proof. exact siblings_partition_refuted. Qed.
+Print Assumptions C14_nested_partition_refuted.
+
+(** ... and true whenever no route that has children has an optional segment *)
+Theorem C14_nested_partition_except_known :
+  forall rs, k_optional_parent rs = false ->
+  forall id p ch ps rem, match_siblings rs id p = NYes ch ps rem -> chain_text ch ++ rem = p.
+Proof. exact siblings_partition_except_known. Qed.
+Print Assumptions C14_nested_partition_except_known.
+
+(** ---- each parameter value is the corresponding path segment ----
+    the parameters a match returns are exactly the bindings of the table pattern of one
+    of the generated flat routes on that path ... *)
+Theorem C14_params_are_segments_except_known :
+  forall rs p ch ps,
+    wf_tree rs = true -> wf_routes rs = true -> starts_with_slash p = true ->
+    known_class None rs p = false ->
+    match_route None rs p = MYes ch ps ->
+    exists f r, In f (gen_routes rs) /\ spre (toks f) p = Some (ps, r) /\ rem_ok r = true.
+Proof. exact params_are_segments. Qed.
+Print Assumptions C14_params_are_segments_except_known.
+
+(** ... and such a binding of a {param} is a non-empty run of bytes without '/' *)
+Theorem C14_param_value_is_segment :
+  forall ts p b r, existsb is_wild_tok ts = false -> spre ts p = Some (b, r) ->
+    Forall (fun kv => snd kv <> [] /\ has_slash (snd kv) = false) b.
+Proof. exact pattern_param_values. Qed.
+Print Assumptions C14_param_value_is_segment.
